@@ -531,7 +531,7 @@ def rule_fast_path(ck, facts):
     """consumers of a migration plan that also know both layouts may skip the plan and keep the old buffer verbatim
     only when the layouts are equal"""
     R = "C08.fast-path"
-    ck.rule(R, "where a runtime holds both the old and the new state layout and compares them, every path that installs a verbatim copy of the old state buffer takes the `layouts are equal` edge of that comparison (an empty patch list alone does not mean `nothing changed`: it also describes a swap in which no subtree survives)")
+    ck.rule(R, "where a runtime holds both the old and the new state layout and compares them, every path that installs a verbatim copy of the old state buffer takes the `layouts are equal` edge of that comparison (an empty patch list alone does not mean `nothing changed`: it also describes a swap in which no subtree survives), and conversely every path with equal layouts and an empty plan installs a copy of the old buffer")
     sites = []
     for crate in (roles.LANG, "mimium_cli", "mimium_audiodriver"):
         try:
@@ -586,6 +586,38 @@ def rule_fast_path(ck, facts):
             equal = (truth is True and not is_ne) or (truth is False and is_ne)
             if not equal:
                 bad = clones[0][3]
+        # converse: equal layouts and an empty plan => the old buffer is what gets installed
+        lost = None
+        n_keep = 0
+        for p in paths:
+            if p.end != "return":
+                continue
+            eq_true = False
+            empty_true = False
+            for ce, v, pos in p.conds:
+                if ce[0] == "call" and any(ce[1] == (callee(t) or "") for t in eqs) and ce[1].split("::")[-1] == "eq":
+                    if (pos and v != 0) or ((not pos) and tuple(v) == (0,)):
+                        eq_true = True
+                if ce[0] == "call" and ce[1].split("::")[-1] == "is_empty" and "patches" in repr(ce[2]):
+                    if (pos and v != 0) or ((not pos) and tuple(v) == (0,)):
+                        empty_true = True
+            if not (eq_true and empty_true):
+                continue
+            setters = [e for e in p.events if e[0] == "call" and e[1].split("::")[-1] in ("set_global_state_data",)]
+            if not setters:
+                continue
+            n_keep += 1
+            x = setters[-1][2][-1]
+            while isinstance(x, tuple) and x and (x[0] in ("ref", "deref") or (x[0] == "call" and x[1].split("::")[-1] in ("deref", "as_slice", "as_ref", "borrow") and x[2])):
+                x = x[1] if x[0] in ("ref", "deref") else x[2][0]
+            if not (isinstance(x, tuple) and x and x[0] == "call" and x[1].split("::")[-1] in ("clone", "to_vec", "to_owned")):
+                lost = setters[-1][3]
+        if n_keep:
+            key2 = "unchanged-keeps|%s" % f.short.split("::")[-1]
+            if lost is None:
+                ck.ok(R, key2, {"fn": f.short, "paths_with_equal_layouts_and_empty_plan": n_keep, "installed": "copy of the old buffer"})
+            else:
+                ck.bad(R, key2, "%s: on a path where the layouts are equal and the plan is empty the installed state is not a copy of the old buffer (the prewarmed zero state with no patch applied): swapping an unchanged program resets every cell" % f.short, f.where(lost))
         key = "verbatim-copy|%s" % f.short.split("::")[-1]
         if n_copy == 0:
             ck.ok(R, key, {"fn": f.short, "verbatim_copy_paths_after_comparison": 0})
